@@ -13,7 +13,7 @@ def build_alloc():
         raise BuildError("alloc-only harness build failed:\n" + p.stdout[-3000:])
     return os.path.join(ALLOC_TARGET, "release", "plonk-harness")
 
-def make_script(rng, pools, sizes, conc):
+def make_script(rng, pools, sizes, conc, big_pools=None):
     S = protocol.Script()
     S.cmd("pp", "pp", 1 << 14, 4)
     out = []
@@ -28,7 +28,8 @@ def make_script(rng, pools, sizes, conc):
         body += ["rbits 64 $1", "lxor 8 $1 $2"]
         nm = f"L{sz}"; S.circuit(nm, body); circuits.append(nm)
     for nm in circuits:
-        for t in pools:
+        pools_nm = pools if not (big_pools and nm == f"L{max(sizes)}" and len(sizes) > 1) else big_pools
+        for t in pools_nm:
             S.cmd("threads", t)
             c = S.cmd("compile", f"k{nm}_{t}", "pp", "6465", nm)
             d1 = S.cmd("digest", "prover", f"k{nm}_{t}"); d2 = S.cmd("digest", "verifier", f"k{nm}_{t}")
@@ -36,7 +37,7 @@ def make_script(rng, pools, sizes, conc):
             v = S.cmd("verify", f"k{nm}_{t}", f"p{nm}_{t}", "=")
             out.append((nm, t, c, d1, d2, p, v))
         S.cmd("threads", 0)
-        cc = S.cmd("concurrent", f"k{nm}_{pools[0]}", nm, conc, 900)
+        cc = S.cmd("concurrent", f"k{nm}_{pools_nm[0]}", nm, conc if pools_nm is pools else 2, 900)
         out.append((nm, "conc", cc))
     return S, out
 
@@ -47,8 +48,9 @@ def run(ck):
     alloc_bin = build_alloc()
     rng = Rng(ck.seed, "C18")
     pools = [1, 2, 3, 4, 5, 8, 16, 17] if quick else list(range(1, 18)) + [32]
-    sizes = [2100] if quick else [1100, 2100, 4200]      # domains 2^11 (thorough), 2^12, 2^13
-    S, out = make_script(rng, pools, sizes, 8 if quick else 16)
+    sizes = [2100, 4200] if quick else [1100, 2100, 4200]      # domains 2^11 (thorough), 2^12, 2^13
+    # quick: the 2^13 domain (beyond every parallel threshold of the kernels) under three pools only
+    S, out = make_script(rng, pools, sizes, 8 if quick else 16, big_pools=[1, 3, 16] if quick else None)
     ck.sample({"circuit_head": S.circuits[f"L{sizes[0]}"][:6], "pools": pools})
     res = protocol.run(S, "c18_a", timeout=3000)
     # second process (fresh hash seeds) and the alloc-only build
@@ -85,8 +87,30 @@ def run(ck):
                 what = "prover key bytes" if ref[nm][0][0] != tup[0] else ("verifier bytes" if ref[nm][0][1] != tup[1] else "proof bytes")
                 ck.violation(f"{what} differ between ({ref[nm][1]} threads, {ref[nm][2]}) and ({t} threads, {label}) for circuit {nm} with the same RNG stream",
                              {"failing_input_found": True, "circuit": nm, "threads": [ref[nm][1], t], "where": [ref[nm][2], label], "script": path}, key=f"differs:{what}")
+    # ---- process history: what a process compiled / proved earlier (other labels, other circuits) must not
+    # change the keys or the proof of a later call.  Labels: same length, identical first 32..63 bytes.
+    small = ["w 5", "w 7", "gmul 1 0 0 0 0 0 - $0 $1 0 0", "pub 23", "rbits 8 $0"]
+    other = ["w 2", "w 3", "gadd 0 1 1 0 0 0 - $0 $1 0 0", "pub 5"]
+    for hj, (ln, pos) in enumerate([(40, 39), (64, 63), (33, 32), (6, 5)]):
+        la = bytes((0x61 + (i % 26)) for i in range(ln)); lb = bytearray(la); lb[pos] ^= 1
+        def hist(with_history):
+            H = protocol.Script(); H.cmd("pp", "pp", 1 << 8, 4)
+            H.circuit("s", small); H.circuit("o", other)
+            if with_history:
+                H.cmd("compile", "ka", "pp", la.hex(), "s"); H.cmd("prove", "pa", "ka", "s", 17)
+                H.cmd("compile", "ko", "pp", la.hex(), "o"); H.cmd("prove", "po", "ko", "o", 17)
+            H.cmd("compile", "kb", "pp", bytes(lb).hex(), "s")
+            ids = (H.cmd("digest", "prover", "kb"), H.cmd("digest", "verifier", "kb"), H.cmd("prove", "pb", "kb", "s", 17))
+            r = protocol.run(H, f"c18_h{hj}_{int(with_history)}")
+            return tuple(r.get(i, "").split(" rng=")[0] for i in ids)
+        fresh, aged = hist(False), hist(True)
+        ck.count(("history", ln, pos), kind="process history")
+        if fresh != aged:
+            what = "prover key bytes" if fresh[0] != aged[0] else ("verifier bytes" if fresh[1] != aged[1] else "proof bytes")
+            ck.violation(f"{what} for label B depend on what the process did before: a fresh process and one that first used the {ln}-byte label A (equal length, differing only at byte {pos}) disagree",
+                         {"failing_input_found": True, "label_A_hex": la.hex(), "label_B_hex": bytes(lb).hex(), "circuit": small, "fresh": [x[:80] for x in fresh], "after_history": [x[:80] for x in aged]}, key="history")
     return ck.finish(level="proof",
-        rule="impl vs impl, no model bytes: prover/verifier key digests and proof bytes for a circuit with domain 2^12 (thorough: 2^11, 2^12, 2^13; many copy classes and public inputs) under rayon pools {1,2,3,4,5,8,16,17} (thorough 1..17, 32) with the same scripted RNG; the same script in a second process (fresh hash seeds) and in a harness built without the std feature (alloc-only, serial code paths); 8 (16) threads proving and verifying concurrently on shared keys vs sequentially",
+        rule="impl vs impl, no model bytes: process history (same call after / without earlier calls with a same-length label sharing a 32..63-byte prefix); prover/verifier key digests and proof bytes for a circuit with domain 2^12 (thorough: 2^11, 2^12, 2^13; many copy classes and public inputs) under rayon pools {1,2,3,4,5,8,16,17} (thorough 1..17, 32) with the same scripted RNG; the same script in a second process (fresh hash seeds) and in a harness built without the std feature (alloc-only, serial code paths); 8 (16) threads proving and verifying concurrently on shared keys vs sequentially",
         assumptions=["rayon join / par_iter().map().collect() / par_chunks_mut().for_each on disjoint chunks have their sequential meaning (guaranteed by Rust's aliasing rules, not mechanised)",
                      "actual interleavings, the OS scheduler and separate compilation are covered by the run only"],
         checker_cmd=proofgate.CHECKER_CMD, trusted_base=proofgate.TRUSTED)
